@@ -67,7 +67,21 @@ class TLCResult:
         self.rc = rc
         self.wall = wall
         self.printed = []
+        pending = None
         for ln in out.splitlines():
+            # TLC wraps long printed tuples over several lines: join until the brackets balance
+            if pending is not None:
+                pending += " " + ln.strip()
+                if pending.count("<<") <= pending.count(">>"):
+                    v = _parse_printed(pending.replace("<< ", "<<").replace(" >>", ">>"))
+                    if v is not None:
+                        self.printed.append(v)
+                    pending = None
+                continue
+            st = ln.strip()
+            if st.startswith("<<") and st.count("<<") > st.count(">>"):
+                pending = st
+                continue
             v = _parse_printed(ln)
             if v is not None:
                 self.printed.append(v)
